@@ -132,7 +132,23 @@ type PaintSnap struct {
 // a paint that caches something per row (or per column) across calls then
 // carries it from the last probe of one paint into the first probe of the
 // next one, which is where a stale cache shows.
-var probePts = []image.Point{{0, 0}, {1, 0}, {0, 1}, {7, 5}, {16, 16}, {31, 2}, {-3, 9}, {200, -100}, {0, 3}, {5, 0}, {0, 0}}
+var probePts = func() []image.Point {
+	pts := []image.Point{{0, 0}, {1, 0}, {0, 1}, {7, 5}, {16, 16}, {31, 2}, {-3, 9}, {200, -100}, {0, 3}, {5, 0}, {0, 0}}
+	// a coarse grid over the usual rectangles, row by row and then column by
+	// column, so that a paint that is wrong only in part of the plane, or
+	// only when scanned in one direction, is seen as well
+	for y := 0; y < 35; y += 7 {
+		for x := 0; x < 35; x += 7 {
+			pts = append(pts, image.Point{X: x, Y: y})
+		}
+	}
+	for x := 3; x < 48; x += 11 {
+		for y := 45; y >= 0; y -= 15 {
+			pts = append(pts, image.Point{X: x, Y: y})
+		}
+	}
+	return append(pts, image.Point{})
+}()
 
 func rgba64Of(c color.Color) color.RGBA64 {
 	r, g, b, a := c.RGBA()
